@@ -202,7 +202,7 @@ def run_check(prop, tier, seed, budget=None, only=None, keep=False, quiet=False,
             restarts = 0
             # a case may kill the whole process (fatal error: out of memory / stack overflow cannot be recovered):
             # attribute the death to the case recorded in the progress file and resume the shard after it
-            while rc != 0 and cfg.get("crash_resume") and os.path.exists(out + ".progress") and restarts < 40:
+            while rc != 0 and cfg.get("crash_resume") and os.path.exists(out + ".progress") and restarts < 120:
                 prog = json.load(open(out + ".progress"))
                 if deaths and deaths[-1].get("_n") == prog["n"] and deaths[-1].get("_shard") == i:
                     break  # no progress since the last restart: not a property of one case, give up (reported as a harness error below)
@@ -382,7 +382,8 @@ def finish(prop, cfg, tier, seed, results, hard, notes, fallback, race_report, w
     if hard:
         for h in hard[:10]:
             print("HARNESS-ERROR: " + h[:2000])
-        return 2
+        # violations that were established stand on their own (each has its replay file); without any, nothing is claimed
+        return 1 if new else 2
     return 1 if new else 0
 
 
